@@ -432,7 +432,7 @@ def main(argv):
         else:
             r = check(rec["scenario"], rec["seed"])
         same = [f for f in r["findings"] if f["rule"] == rec["rule"]]
-        print("replay %s: %s" % (argv[1], "REPRODUCED rule=%s" % rec["rule"] if same else "not reproduced"))
+        print("replay %s: %s" % (argv[1], "REPRODUCED rule=%s%s" % (rec["rule"], common.digest_note(rec, same)) if same else "not reproduced"))
         return 1 if same else 0
     tier = common.tier()
     n = 2500 if tier == "quick" else 100000
@@ -442,6 +442,8 @@ def main(argv):
     items += [("deadline", k) for k in range(400 if tier == "quick" else 20000)]
     items += [("batches", k) for k in range(400 if tier == "quick" else 20000)]
     rep = common.Report(PROP)
+    from checks import minimise as _MIN
+    rep.minimiser = lambda f: _MIN.scenario(f, lambda scn, seed: check(scn, seed)) if f.get('kind') == 'generated' else f
     for r in common.run_batch("checks.c08", "run_one", items, {"tier": tier}, chunk=10):
         rep.absorb(r)
     return rep.finish(
